@@ -42,6 +42,9 @@ LABEL_POOLS = [
     ["x0", "x1", "y", -1, 0, ("t",)],
     # distinct labels with equal hashes (CPython: hash(-1) == hash(-2) == -2, hash(2**61 - 1) == hash(0) == 0)
     [-1, -2, 3, 2 ** 61 - 1, 0, "a"],
+    # all ints, max == n - 1 and min != 0 for every prefix of length >= 3: "looks like range(n)" by max / len / sum of
+    # squares-free shortcuts, but is not
+    [-1, 2, 0, 3, 4, 5],
 ]
 # partner of equal hash for the labels of the last pool
 HASH_TWIN = {-1: -2, -2: -1, 0: 2 ** 61 - 1, 2 ** 61 - 1: 0}
